@@ -180,6 +180,12 @@ def run(ctx, F, cg):
     # R14c
     mk = [c for c, k, r in ev if k == "create" and r == "marker"]
     oks = [i for i, j, pl, rv, line, exp in b.stmts() if pl[0] == 0 and rv[0] == "agg" and rv[1].endswith("Result::Ok")]
+    # a tail call whose Result is returned as it is (`sync_directory(&dir)` as the last expression): its success is a
+    # success exit of this function, reached just after the call
+    oks += [c.target for c in b.calls() if c.dest[0] == 0 and not c.dest[1] and c.target is not None and "Result<" in b.local_ty(0)
+            and not c.path.endswith("from_residual") and c.path.rsplit("::", 1)[-1] not in ("from", "into", "map_err", "Err")]
+    if not oks:
+        ctx.violation("R14c", "persist_snapshot|no-success-exit", where(ps), "cannot find where persist_snapshot returns Ok: the protocol after the rename is not analysed")
     msync = {c.bb for c, k, r in ev if k == "sync" and r == "marker"}
     dsync = {c.bb for c, k, r in ev if k == "sync" and r == "dir"}
     if not mk or not renames:
